@@ -222,7 +222,9 @@ func Run(r *core.Run) {
 		window bool
 	}
 	var bcs []builderCase
-	for _, kt := range append(append([]string{}, keys.Types...), "secp256k1/leading-zero", "P-256/leading-zero") {
+	// (".../alg-X": the signer of a key of that curve announces the algorithm X - the protocol lists algorithm names and curves
+	// independently, and the digest of an ECDSA signature follows the curve of the key)
+	for _, kt := range append(append([]string{}, keys.Types...), "secp256k1/leading-zero", "P-256/leading-zero", "P-384/alg-ES256", "P-521/alg-ES256K", "P-256/alg-ES512") {
 		for _, code := range []uint{18, 19} {
 			for _, a := range append([]string{""}, actions...) {
 				for oi, o := range []any{nil, "origin.example"} {
@@ -240,7 +242,16 @@ func Run(r *core.Run) {
 				if t, lz := strings.CutSuffix(bc.kt, "/leading-zero"); lz {
 					return keys.WithLeadingZero(t, i-610) // keys one of whose coordinates begins with a zero byte
 				}
+				if t, _, labelled := strings.Cut(bc.kt, "/alg-"); labelled {
+					return keys.New(t, i)
+				}
 				return keys.New(bc.kt, i)
+			}
+			newSigner := func(k *keys.Key) *hsigner {
+				if _, label, labelled := strings.Cut(bc.kt, "/alg-"); labelled && k.EC != nil {
+					return &hsigner{k, ecsigner.New(k.EC, label, "")}
+				}
+				return newSigner(k)
 			}
 			rec, upd, upd2, rec2, upd3 := mk(610), mk(611), mk(612), mk(613), mk(614)
 			jwkOf := func(k *keys.Key) *jws.JWK { return newSigner(k).PublicKeyJWK() }
